@@ -52,6 +52,17 @@ func Reconcile(asset string, senders []Sender, receivers []Receiver) ([]Posting,
 			if !empty {
 				var newMon big.Int
 				newMon.Sub(sender.Monetary, receiver.Monetary)
+				if newMon.Sign() <= 0 {
+					// this sender is entirely kept: what is still to be kept
+					// is withheld from the senders next in line
+					if newMon.Sign() < 0 {
+						receivers = append(receivers, Receiver{
+							Name:     KEPT_ADDR,
+							Monetary: new(big.Int).Neg(&newMon),
+						})
+					}
+					continue
+				}
 				senders = append(senders, Sender{
 					Name:     sender.Name,
 					Monetary: &newMon,
